@@ -9,6 +9,7 @@ import catalogue
 import common
 import e1
 import e2
+import c17_ap
 import e2_c06
 import e2_c09
 import e2_c11
@@ -197,7 +198,9 @@ PROPS["C17"] = _e1({
             "zeros 1.50 vs 1.5 vs 1.500000000000000000, 38-digit coefficients, negative zero literal) through three "
             "channels (serde_json Value tree; JSON text with the exactly rounding float parser; bytes); unit and "
             "bit-identical amount must come back; units serialise as their variant names; a hash map from JSON text to "
-            "state proves injectivity over the whole explored set of each type",
+            "state proves injectivity over the whole explored set of each type; the round trips of every catalogue unit x 12-15 "
+            "amounts are repeated in a second consumer configuration, serde_json built with `arbitrary_precision` (harness/qv-serde-ap)",
+    "extra": c17_ap.probe,
     "floors": {"quick": {"types": 25, "catalogue_units": 112, "round_trips_ok": 15000, "distinct_serialisations": 5000}},
     "assumptions": ["serde_json 1.0 with feature float_roundtrip is the 'exactly rounding float parser' of the statement"],
 })
